@@ -126,7 +126,10 @@ aws_sign_s3_headers(const char * key_id, const char * key_secret,
 	SHA256_Buf(body, body ? bodylen : 0, hbuf);
 	hexify(hbuf, content_sha256, 32);
 
-	/* Construct Canonical Request. */
+	/*
+	 * Construct Canonical Request.  An empty path is canonicalized to "/"
+	 * as required by AWS Signature Version 4.
+	 */
 	if (asprintf(&canonical_request,
 	    "%s\n"
 	    "%s\n"
@@ -137,8 +140,8 @@ aws_sign_s3_headers(const char * key_id, const char * key_secret,
 	    "\n"
 	    "host;x-amz-content-sha256;x-amz-date\n"
 	    "%s",
-	    method, path, bucket, content_sha256, datetime,
-	    content_sha256) == -1)
+	    method, (path[0] == '\0') ? "/" : path, bucket, content_sha256,
+	    datetime, content_sha256) == -1)
 		goto err0;
 
 	/* Compute request signature. */
@@ -217,7 +220,10 @@ aws_sign_s3_querystr(const char * key_id, const char * key_secret,
 		goto err0;
 	}
 
-	/* Construct Canonical Request string. */
+	/*
+	 * Construct Canonical Request string.  An empty path is canonicalized
+	 * to "/" as required by AWS Signature Version 4.
+	 */
 	if (asprintf(&s,
 	    "%s\n"
 	    "%s\n"
@@ -230,8 +236,8 @@ aws_sign_s3_querystr(const char * key_id, const char * key_secret,
 	    "\n"
 	    "host\n"
 	    "UNSIGNED-PAYLOAD",
-	    method, path, key_id, date, region, "s3", datetime, expiry,
-	    bucket) == -1)
+	    method, (path[0] == '\0') ? "/" : path, key_id, date, region, "s3",
+	    datetime, expiry, bucket) == -1)
 		goto err0;
 
 	if (aws_sign(key_secret, date, datetime, region, "s3", s, hhex))
